@@ -117,6 +117,8 @@ type faultWriter struct {
 	budget int
 	short  bool
 	silent bool // a short write that reports no error
+	full   bool // the failing Write (and every later one) takes ALL the bytes and still reports an error
+	failed bool
 }
 
 // rfDest is a destination that is itself an io.ReaderFrom (as *os.File, *bufio.Writer, *bytes.Buffer are):
@@ -150,6 +152,11 @@ func (d rfDest) ReadFrom(r io.Reader) (int64, error) {
 var errFault = errors.New("injected write fault")
 
 func (f *faultWriter) Write(p []byte) (int, error) {
+	if f.full && (f.failed || (f.budget >= 0 && len(p) > f.budget)) {
+		f.failed = true
+		f.acc = append(f.acc, p...)
+		return len(p), errFault
+	}
 	if f.budget < 0 || len(p) <= f.budget {
 		f.acc = append(f.acc, p...)
 		if f.budget >= 0 {
@@ -169,6 +176,58 @@ func (f *faultWriter) Write(p []byte) (int, error) {
 	return 0, errFault
 }
 
+func scribble(b []byte) {
+	for i := range b {
+		b[i] ^= 0xa5
+	}
+}
+
+func vandaliseURL(u *url.URL) {
+	if u != nil {
+		u.Scheme, u.Host, u.Path, u.RawPath, u.RawQuery = "http", "vandal.test", u.Path+"/vandal", "", "v=1"
+	}
+}
+
+func vandaliseBundle(b *bundle.Bundle) {
+	vandaliseURL(b.PrimaryURL)
+	vandaliseURL(b.ManifestURL)
+	for _, e := range b.Exchanges {
+		if e == nil {
+			continue
+		}
+		vandaliseURL(e.Request.URL)
+		e.Response.Status = 599
+		for k, vs := range e.Response.Header {
+			for i := range vs {
+				vs[i] = "vandal"
+			}
+			e.Response.Header[k] = append(vs, "more")
+		}
+		if e.Response.Header != nil {
+			e.Response.Header["X-Vandal"] = []string{"1"}
+		}
+		scribble(e.Response.Body)
+	}
+	if b.Signatures != nil {
+		for _, a := range b.Signatures.Authorities {
+			if a != nil {
+				scribble(a.OCSPResponse)
+				scribble(a.SCTList)
+				if a.Cert != nil {
+					scribble(a.Cert.Raw)
+				}
+			}
+		}
+		for _, v := range b.Signatures.VouchedSubsets {
+			if v != nil {
+				scribble(v.Sig)
+				scribble(v.Signed)
+				v.Authority = 77
+			}
+		}
+	}
+}
+
 func init() {
 	regOp("bundle_write", func(a []Sx) (res Sx) {
 		defer func() {
@@ -182,11 +241,20 @@ func init() {
 		if len(a) > 1 && a[1].IsSym("plain") {
 			w = plainWriter{&buf}
 		}
+		pre := 0
+		if len(a) > 1 && a[1].IsSym("counting") {
+			// the caller's own CountingWriter, which has already counted a preamble: the bundle (its
+			// length field, the returned count) must not depend on what went through the writer before
+			cw := bundle.NewCountingWriter(&buf)
+			cw.Write([]byte("sixteen byte pre"))
+			pre = 16
+			w = cw
+		}
 		n, err := b.WriteTo(w)
 		if err != nil {
 			return L(Sym("err"), Zi(n))
 		}
-		return L(Sym("ok"), B(buf.Bytes()), Zi(n))
+		return L(Sym("ok"), B(buf.Bytes()[pre:]), Zi(n))
 	})
 	regOp("bundle_read", func(a []Sx) (res Sx) {
 		defer func() {
@@ -194,6 +262,13 @@ func init() {
 				res = L(Sym("panic"))
 			}
 		}()
+		// the file is read twice; what the first Read returned is vandalised in between (a caller may do
+		// what it likes with its result): the second result must still be what is in the file
+		src0, spoil0 := ownedSrc(a[0].B)
+		if b0, err0 := bundle.Read(src0); err0 == nil {
+			vandaliseBundle(b0)
+		}
+		spoil0()
 		src, spoil := ownedSrc(a[0].B)
 		b, err := bundle.Read(src)
 		spoil()
